@@ -590,9 +590,13 @@ func ruleSnapshotOffer(w *core.World, r *core.Report) {
 			}
 			joined := false
 			if known && v {
-				// constant true: only on the "no log yet" path
+				// true: on the "no log yet" path, or where the comparison of the contiguous log's left edge
+				// with the snapshot offset held
 				for _, fct := range p.Conds {
 					if c, ok := core.AsCmp(fct.Cond, fct.Val); ok && c.Op == token.EQL && isConstInt(0)(c.Y) {
+						joined = true
+					}
+					if b, ok := core.Unwrap(p.Resolve(fct.Cond)).(*ssa.BinOp); ok && fct.Val && (b.Op == token.LEQ || b.Op == token.EQL) && fieldNameOfLoad(b.X) == "left" && fieldNameOfLoad(b.Y) == "left" {
 						joined = true
 					}
 				}
